@@ -77,7 +77,9 @@ def generate():
     need(imp and use, "empty candidate array")
     # the rest of find_file, as an anchored shape
     rest = text_of(toks, e2 + 3, hi)
-    expected_rest = ("let url = relative ( & from , url ) ; if let Some ( ( path , mut file ) ) = self . do_find_file ( & url , names ) ? "
+    expected_rest = ("let rel_url = relative ( & from , url ) ; let found = match self . do_find_file ( & rel_url , names ) ? "
+                     "{ None if rel_url != url => self . do_find_file ( url , names ) ? , found => found , } ; "
+                     "if let Some ( ( path , mut file ) ) = found "
                      "{ let is_module = ! from . is_import ( ) ; let source = from . url ( & path ) ; "
                      "let file = SourceFile :: read ( & mut file , source ) ? ; self . lock_loading ( & file , is_module ) ? ; "
                      "Ok ( Some ( file ) ) } else { Ok ( None ) }")
